@@ -520,6 +520,22 @@ func (in *Interp) installBuiltins() {
 	})
 
 	in.installCoroutine()
+
+	// names of the real standard library that this model does not implement
+	miss := func(t *Table, names ...string) {
+		t.missing = map[string]bool{}
+		for _, n := range names {
+			if t.rawget(n) == nil {
+				t.missing[n] = true
+			}
+		}
+	}
+	miss(G, "print", "require", "load", "loadfile", "dofile", "collectgarbage", "os", "io", "debug", "utf8",
+		"package", "_VERSION", "warn")
+	miss(S, "format", "find", "match", "gmatch", "gsub", "char", "pack", "unpack", "packsize", "dump")
+	miss(T, "concat", "sort", "move")
+	miss(M, "floor", "ceil", "abs", "max", "min", "sqrt", "pi", "fmod", "modf", "random", "randomseed", "ult",
+		"exp", "log", "sin", "cos", "tan", "asin", "acos", "atan")
 }
 
 func asciiMap(s string, lo, hi byte, d int) string {
